@@ -29,9 +29,10 @@ type zipManifest struct {
 	WholePartIndex  int    `json:"wholePartIndex"`
 	DataBlobsOrigin string `json:"dataBlobsOrigin"`
 	DataBlobs       []struct {
-		Blob   string `json:"blob"`
-		Size   int64  `json:"size"`
-		Offset int64  `json:"offset"`
+		Blob    string `json:"blob"`    // name in the package documentation
+		BlobRef string `json:"blobRef"` // name actually written (blob.SizedRef)
+		Size    int64  `json:"size"`
+		Offset  int64  `json:"offset"`
 	} `json:"dataBlobs"`
 }
 
@@ -45,6 +46,7 @@ type zipInfo struct {
 	Part      int
 	Contained map[blob.Ref]bool // logical blobs inside (data chunks and schema blobs)
 	Repeats   int               // data blobs listed more than once in the manifest
+	Repeated  map[blob.Ref]bool // those blobs
 	Problems  []problem
 	parsed    bool
 }
@@ -167,6 +169,9 @@ func validateZip(w *world, ref blob.Ref, data []byte, limit int) *zipInfo {
 	seen := map[blob.Ref]int{}
 	okOffsets := true
 	for i, db := range mf.DataBlobs {
+		if db.Blob == "" {
+			db.Blob = db.BlobRef
+		}
 		br, ok := blob.Parse(db.Blob)
 		if !ok || db.Size < 0 || db.Offset < 0 || db.Offset+db.Size > int64(len(first)) {
 			bad("zip-invalid/manifest-offsets", "dataBlobs[%d] = %+v lies outside the first entry (%d bytes)", i, db, len(first))
@@ -188,9 +193,13 @@ func validateZip(w *world, ref blob.Ref, data []byte, limit int) *zipInfo {
 	if okOffsets && pos != int64(len(first)) {
 		bad("zip-invalid/manifest-offsets", "dataBlobs cover %d of the %d bytes of the first entry", pos, len(first))
 	}
-	for _, n := range seen {
+	for br, n := range seen {
 		if n > 1 {
 			zi.Repeats++
+			if zi.Repeated == nil {
+				zi.Repeated = map[blob.Ref]bool{}
+			}
+			zi.Repeated[br] = true
 		}
 	}
 	// first entry = contiguous file content
@@ -205,12 +214,13 @@ func validateZip(w *world, ref blob.Ref, data []byte, limit int) *zipInfo {
 
 // zipCache validates every distinct zip of a case once.
 type zipCache struct {
+	limit  int // size limit of a zip blob in this case
 	mu     sync.Mutex
 	m      map[blob.Ref]*zipInfo
 	groups map[string]bool
 }
 
-func (zc *zipCache) get(w *world, ref blob.Ref, data []byte, limit int) (zi *zipInfo, fresh bool) {
+func (zc *zipCache) get(w *world, ref blob.Ref, data []byte) (zi *zipInfo, fresh bool) {
 	zc.mu.Lock()
 	defer zc.mu.Unlock()
 	if zc.m == nil {
@@ -220,7 +230,7 @@ func (zc *zipCache) get(w *world, ref blob.Ref, data []byte, limit int) (zi *zip
 	if zi, ok := zc.m[ref]; ok {
 		return zi, false
 	}
-	zi = validateZip(w, ref, data, limit)
+	zi = validateZip(w, ref, data, zc.limit)
 	zc.m[ref] = zi
 	return zi, true
 }
